@@ -129,17 +129,17 @@ func TestVerifCorruptBounded(t *testing.T) {
 		mode string
 		set  []string
 	}{
-		{"tx", []string{"block_num", "block_time"}},                      // headers... with tx_idx: blocks
-		{"tx", []string{"block_num", "tx_input"}},                        // blocks
-		{"tx", []string{"block_num", "tx_status"}},                       // receipts
-		{"tx", []string{"block_num", "tx_status", "tx_input"}},           // blocks + receipts
-		{"tx", []string{"block_num", "block_time", "tx_gas_used"}},       // headers/blocks + receipts
-		{"log", []string{"block_num", "log_addr"}},                       // logs
-		{"log", []string{"block_num", "block_time", "log_idx"}},          // headers + logs
-		{"log", []string{"block_num", "tx_input", "log_addr"}},           // blocks + logs
+		{"tx", []string{"block_num", "block_time"}},                            // headers... with tx_idx: blocks
+		{"tx", []string{"block_num", "tx_input"}},                              // blocks
+		{"tx", []string{"block_num", "tx_status"}},                             // receipts
+		{"tx", []string{"block_num", "tx_status", "tx_input"}},                 // blocks + receipts
+		{"tx", []string{"block_num", "block_time", "tx_gas_used"}},             // headers/blocks + receipts
+		{"log", []string{"block_num", "log_addr"}},                             // logs
+		{"log", []string{"block_num", "block_time", "log_idx"}},                // headers + logs
+		{"log", []string{"block_num", "tx_input", "log_addr"}},                 // blocks + logs
 		{"log", []string{"block_num", "block_hash", "block_time", "log_addr"}}, // headers + logs, hash stored
-		{"trace", []string{"block_num", "trace_action_from"}},            // traces
-		{"trace", []string{"block_num", "tx_status", "trace_action_to"}}, // receipts + traces
+		{"trace", []string{"block_num", "trace_action_from"}},                  // traces
+		{"trace", []string{"block_num", "tx_status", "trace_action_to"}},       // receipts + traces
 	}
 	cases, nfail := 0, 0
 	for _, pl := range plans {
